@@ -1912,3 +1912,126 @@ Proof.
   { eapply finish_call; eauto. discriminate. }
   destruct ns; rewrite Ef; exact G.
 Qed.
+
+(* ---- all node kinds together ---- *)
+Definition P_all (e : expr) : Prop :=
+  sound_at e /\ (forall a x, e = EClosure a x -> sound_at x) /\ pair_sound e.
+
+Lemma P_of e : sound_at e -> (forall a x, e <> EClosure a x) -> (forall a k v, e <> EPair a k v) -> P_all e.
+Proof.
+  intros H N1 N2. split; [exact H|]. split.
+  - intros a x E. destruct (N1 _ _ E).
+  - intros a k v E. destruct (N2 _ _ _ E).
+Qed.
+
+Lemma P_sound l : Forall P_all l -> Forall sound_at l.
+Proof. intros H. eapply Forall_impl; [|exact H]. intros x [Hx _]. exact Hx. Qed.
+
+Lemma out_of_scope e : (forall cols, scope c cols e = false) -> sound_at e.
+Proof. intros H cols t e' _ Hs. rewrite H in Hs. discriminate. Qed.
+
+Lemma sound_all : forall e, P_all e.
+Proof.
+  induction e using expr_ind2. rename H into HF.
+  destruct e as [an|an nm nsf|an z|an f|an b|an sx|an v|an op x|an op l r|an re l r|an x nm nsf|an x i|an x fr to
+                |an x nm args nsf|an nm args fast|an b args|an x|an|an cnd x y|an es|an ps|an k v];
+    cbn [children] in HF.
+  - apply P_of; [apply sound_nil|discriminate|discriminate].
+  - apply P_of; [apply sound_ident|discriminate|discriminate].
+  - apply P_of; [apply sound_int|discriminate|discriminate].
+  - apply P_of; [apply sound_float|discriminate|discriminate].
+  - apply P_of; [apply sound_bool|discriminate|discriminate].
+  - apply P_of; [apply sound_str|discriminate|discriminate].
+  - apply P_of; [apply out_of_scope; reflexivity|discriminate|discriminate].
+  - inversion HF as [|? ? [Hx _] _]; subst. apply P_of; [apply sound_unary; assumption|discriminate|discriminate].
+  - inversion HF as [|? ? [Hl _] HF2]; subst. inversion HF2 as [|? ? [Hr _] _]; subst.
+    apply P_of; [apply sound_binary; assumption|discriminate|discriminate].
+  - inversion HF as [|? ? [Hl _] HF2]; subst. inversion HF2 as [|? ? [Hr _] _]; subst.
+    apply P_of; [apply sound_matches; assumption|discriminate|discriminate].
+  - inversion HF as [|? ? [Hx _] _]; subst. apply P_of; [apply sound_property; assumption|discriminate|discriminate].
+  - inversion HF as [|? ? [Hx _] HF2]; subst. inversion HF2 as [|? ? [Hi _] _]; subst.
+    apply P_of; [apply sound_index; assumption|discriminate|discriminate].
+  - inversion HF as [|? ? [Hx _] HF2]; subst. apply P_sound in HF2.
+    apply P_of; [|discriminate|discriminate]. apply sound_slice; [exact Hx| |].
+    + intros f0 ->. apply (proj1 (Forall_forall _ _) HF2). apply in_or_app. left. cbn. auto.
+    + intros u0 ->. apply (proj1 (Forall_forall _ _) HF2). apply in_or_app. right. cbn. auto.
+  - inversion HF as [|? ? [Hx _] HF2]; subst. apply P_sound in HF2.
+    apply P_of; [apply sound_method; assumption|discriminate|discriminate].
+  - apply P_sound in HF. apply P_of; [apply sound_function; assumption|discriminate|discriminate].
+  - apply P_of; [|discriminate|discriminate].
+    destruct b; destruct args as [|x0 [|cl [|d r]]];
+      try (apply out_of_scope; reflexivity);
+      try (inversion HF as [|? ? [Hx _] _]; subst; apply sound_len; exact Hx; fail).
+    all: destruct cl; try (apply out_of_scope; reflexivity).
+    all: inversion HF as [|? ? [Hx _] HF2]; subst; inversion HF2 as [|? ? [_ [Hcl _]] _]; subst;
+         apply sound_loop; [reflexivity|exact Hx|exact (Hcl _ _ eq_refl)].
+  - inversion HF as [|? ? [Hx _] _]; subst. split; [apply out_of_scope; reflexivity|]. split.
+    + intros a0 x0 E. inversion E; subst. exact Hx.
+    + intros a0 k0 v0 E. discriminate.
+  - apply P_of; [apply sound_pointer|discriminate|discriminate].
+  - inversion HF as [|? ? [Hc _] HF2]; subst. inversion HF2 as [|? ? [Hx _] HF3]; subst.
+    inversion HF3 as [|? ? [Hy _] _]; subst.
+    apply P_of; [apply sound_cond; assumption|discriminate|discriminate].
+  - apply P_sound in HF. apply P_of; [apply sound_array; assumption|discriminate|discriminate].
+  - apply P_of; [|discriminate|discriminate]. apply sound_map.
+    eapply Forall_impl; [|exact HF]. intros p [_ [_ Hp]]. exact Hp.
+  - inversion HF as [|? ? [Hk _] HF2]; subst. inversion HF2 as [|? ? [Hv _] _]; subst.
+    split; [apply out_of_scope; reflexivity|]. split.
+    + intros a0 x0 E. discriminate.
+    + intros a0 k0 v0 E. inversion E; subst. split; assumption.
+Qed.
+
+Theorem sound_partial e t e' :
+  check c e = (t, e', None) -> in_scope c e = true ->
+  forall s, res_ok t (ev [] e' s).
+Proof.
+  unfold check, in_scope. destruct (visit c [] e None) as [[t0 e0] st] eqn:Ev. intros H Hs s.
+  assert (t0 = t /\ e0 = e' /\ st = None) as (-> & -> & ->).
+  { destruct (cc_expect c) as [k|]; [destruct (expect_ok k t0)|]; inversion H; auto. }
+  exact (proj1 (sound_all e) _ _ _ Ev Hs [] (Forall2_nil _) s).
+Qed.
+
+(* ================================================================== Part 6 *)
+(* the result directive: AsBool / AsInt64 / AsFloat64 *)
+Definition cast_scope (k : rkind) (t : ty) : bool :=
+  match k with
+  | RKNum KInt64 | RKNum KF64 => s_num t                (* not: interface{}, pointer, declared numeric type *)
+  | _ => negb (is_declared t)                           (* not: finding C03-named-int *)
+  end.
+
+Lemma kind_bool_plain t : kind_of_ty t = RKBool -> is_declared t = false -> t = TBool.
+Proof. destruct t; cbn; try discriminate; reflexivity. Qed.
+
+Definition cast_post (k : rkind) (v : value) : Prop :=
+  match k with
+  | RKBool => exists b, v = VBool b
+  | RKNum KInt64 => exists z, v = VNum (NInt KInt64 z)
+  | RKNum KF64 => exists f, v = VNum (NFlt KF64 f)
+  | _ => True
+  end.
+
+Theorem cast_kind e t e' k :
+  check c e = (t, e', None) -> in_scope c e = true -> cc_expect c = Some k -> cast_scope k t = true ->
+  match run_ref fe cfg env (cast_of (Some k)) e' with
+  | Done v _ => cast_post k v
+  | Stop er _ _ => is_type_err er = false
+  end.
+Proof.
+  intros H Hs Hk Hc. pose proof (sound_partial e t e' H Hs rs0) as R.
+  assert (Hex : expect_ok k t = true).
+  { unfold check in H. destruct (visit c [] e None) as [[t0 e0] st]. rewrite Hk in H.
+    destruct (expect_ok k t0) eqn:E; inversion H; subst; exact E. }
+  unfold run_ref. destruct (eval fe cfg env [] e' rs0) as [v s|er l s]; cbn [rbind Sound.res_ok] in *; [|exact R].
+  destruct k as [| |k0| | | | | | | |]; cbn [cast_of cast_scope cast_post] in *; try exact I.
+  - (* AsBool *)
+    apply negb_true_iff in Hc. cbn in Hex. destruct (kind_of_ty t) eqn:Kt; try discriminate.
+    rewrite (kind_bool_plain t Kt Hc) in R. exact (inv_bool _ _ _ R).
+  - destruct k0; cbn [cast_of cast_scope cast_post] in *; try exact I.
+    + (* AsInt64 *)
+      destruct (s_num_inv _ Hc) as [kt ->]. destruct (inv_num _ _ _ _ R) as (n & -> & _ & _).
+      pose proof (to_int64_ok n) as P. destruct (to_int64 (VNum n)) as [r|er]; cbn in *; exact P.
+    + (* AsFloat64 *)
+      destruct (s_num_inv _ Hc) as [kt ->]. destruct (inv_num _ _ _ _ R) as (n & -> & _ & _).
+      pose proof (to_float64_ok n) as P. destruct (to_float64 (VNum n)) as [r|er]; cbn in *; [eauto|exact P].
+Qed.
+End Main.
